@@ -78,6 +78,44 @@ func (g *gen) vec(n int) []Word {
 	return v
 }
 
+// carryVec: words mostly B-1 or 1 (long carry chains in sums of partial products), top word non-zero
+func (g *gen) carryVec(n int) []Word {
+	v := make([]Word, n)
+	style := g.r.Intn(4)
+	for i := range v {
+		switch style {
+		case 0:
+			v[i] = B - 1
+		case 1: // one B-1 word below a run of ones (or the reverse)
+			v[i] = 1
+		default:
+			switch k := g.r.Intn(20); {
+			case k < 12:
+				v[i] = B - 1
+			case k < 15:
+				v[i] = 1
+			case k < 17:
+				v[i] = 0
+			case k < 18:
+				v[i] = B - 2
+			default:
+				v[i] = g.word()
+			}
+		}
+	}
+	if style == 1 && n > 0 {
+		if g.r.Intn(2) == 0 {
+			v[0] = B - 1
+		} else {
+			v[g.r.Intn(n)] = B - 1
+		}
+	}
+	if n > 0 && v[n-1] == 0 {
+		v[n-1] = 1
+	}
+	return v
+}
+
 // normalised non-empty vector (top word non-zero)
 func (g *gen) nvec(n int) []Word {
 	v := g.vec(n)
@@ -328,8 +366,18 @@ func genDec(g *gen, w *bufio.Writer, n int, maxLen int, ops []string, poison boo
 				ly = lx
 				y = g.nvec(ly)
 			}
+			if g.r.Intn(3) == 0 {
+				// carry chains: partial products whose carry-out meets runs of B-1 words in the accumulator
+				if g.r.Intn(2) == 0 {
+					lx, ly = 2+g.r.Intn(maxLen+60), 2+g.r.Intn(maxLen+60)
+				}
+				x, y = g.carryVec(lx), g.carryVec(ly)
+			}
 		case "sqr":
 			x = g.nvec(lx)
+			if g.r.Intn(3) == 0 {
+				x = g.carryVec(lx)
+			}
 		case "div":
 			if g.r.Intn(4) == 0 {
 				ly = 100 + g.r.Intn(maxLen+1)
